@@ -10,6 +10,7 @@ use scylla::policies::retry::{
     RetryPolicy, RetrySession,
 };
 use scylla::statement::Consistency;
+use scylla_cql::frame::frame_errors::{CqlErrorParseError, CqlResultParseError, FrameBodyExtensionsParseError, LowLevelDeserializationError};
 use serde_json::{Value, json};
 use std::io::Write;
 
@@ -90,6 +91,18 @@ fn instances(s: &Sym, cl: Consistency) -> Vec<RequestAttemptError> {
             RequestAttemptError::RepreparedIdChanged { statement: "s".into(), expected_id: vec![1], reprepared_id: vec![2] },
             RequestAttemptError::UnexpectedResponse(CqlResponseKind::Ready),
             RequestAttemptError::UnexpectedResponse(CqlResponseKind::Supported),
+            // a response arrived but could not be decoded: the request may well have been applied
+            RequestAttemptError::CqlErrorParseError(CqlErrorParseError::ErrorCodeParseError(LowLevelDeserializationError::TooFewBytesReceived { expected: 4, received: 1 })),
+            RequestAttemptError::CqlErrorParseError(CqlErrorParseError::ReasonParseError(LowLevelDeserializationError::InvalidValueLength(-7))),
+            RequestAttemptError::CqlErrorParseError(CqlErrorParseError::MalformedErrorField {
+                db_error: "WRITE_TIMEOUT",
+                field: "WRITE_TYPE",
+                err: LowLevelDeserializationError::TooFewBytesReceived { expected: 2, received: 0 },
+            }),
+            RequestAttemptError::CqlResultParseError(CqlResultParseError::UnknownResultId(99)),
+            RequestAttemptError::CqlResultParseError(CqlResultParseError::ResultIdParseError(LowLevelDeserializationError::TooFewBytesReceived { expected: 4, received: 0 })),
+            RequestAttemptError::BodyExtensionsParseError(FrameBodyExtensionsParseError::NoCompressionNegotiated),
+            RequestAttemptError::BodyExtensionsParseError(FrameBodyExtensionsParseError::TraceIdParse(LowLevelDeserializationError::TooFewBytesReceived { expected: 16, received: 3 })),
         ],
         "Syntax" => vec![db(DbError::SyntaxError)],
         "Invalid" => vec![db(DbError::Invalid)],
